@@ -325,6 +325,22 @@ def rule_automaton(facts):
     return r
 
 
+def automaton_part(facts, rid, title, keys):
+    """The clauses of C01.R2 named by `keys`, reported under another property that rests on the same mechanism."""
+    full = rule_automaton(facts)
+    r = report.RuleResult(rid, title)
+    r.sites = 1
+    mine = [f for f in full.findings if any(k in f.key for k in keys)]
+    floor = [f for f in full.findings if f.key.startswith("floor:")]
+    for f in mine + floor:
+        f.rule = rid
+        r.findings.append(f)
+    r.obligations = max(1, len(mine) + len(floor))
+    r.discharged = 0 if (mine or floor) else 1
+    r.how = {"shared:C01.R2": 1}
+    return r
+
+
 def rule_contexts(facts):
     r = report.RuleResult("C01.R3", "literal / length / distance context and offset terms are the format's")
     lit = pat.body_of(facts, "DecoderState::decode_literal")
